@@ -13,3 +13,5 @@ register_simp_attr rframe
 register_simp_attr bframe
 /-- frame lemmas for the unbonding queue alone -/
 register_simp_attr qframe
+/-- frame lemmas for the staking view and the clock -/
+register_simp_attr sframe
